@@ -266,17 +266,27 @@ R"(
         return ctx_manager->get(t).underlying_type;
     }
 
-    static std::string make_entry_cursor_constructor(
+    std::string make_entry_cursor_constructor(
         const sbe::level_members& members,
         const std::string_view class_name,
         const std::string_view block_length_type,
-        const std::string_view base_class)
+        const std::string_view base_class) const
     {
         // for empty group entries we generate a special cursor constructor to
         // advance cursor to `block_length` because there are no other fields
-        // to do this. Default constructor is declared explicitly because old
-        // compilers don't support inheriting it from the base class.
-        if(members.fields.empty() && members.groups.empty()
+        // to do this. Constants are not stored in the entry, their accessors
+        // don't move the cursor. Default constructor is declared explicitly
+        // because old compilers don't support inheriting it from the base
+        // class.
+        const auto has_only_constants = std::all_of(
+            std::begin(members.fields),
+            std::end(members.fields),
+            [this](const auto& f)
+            {
+                return ctx_manager->get(f).actual_presence
+                       == field_presence::constant;
+            });
+        if(has_only_constants && members.groups.empty()
            && members.data.empty())
         {
             return fmt::format(
